@@ -121,6 +121,9 @@ func init() {
 	for _, a := range workload.Aliasing {
 		mutators = append(mutators, struct{ Src, In string }{a.Src, a.In})
 	}
+	for _, a := range workload.BigNumbers {
+		mutators = append(mutators, struct{ Src, In string }{a.Src, a.In})
+	}
 	for _, a := range workload.Chains {
 		mutators = append(mutators, struct{ Src, In string }{a.Src, a.In})
 	}
